@@ -504,6 +504,9 @@ func (c *rdCase) step(o op, newInfo *hinfo) {
 	}
 	// ---- panics
 	if slow.panicked != dyn.panicked {
+		if len(c.rep.Notes) < 6 {
+			c.rep.Notes = append(c.rep.Notes, fmt.Sprintf("references disagree on panic (slow=%v dyn=%v) at %s of %s; history %s; %s%s", slow.panicked, dyn.panicked, o, c.tn, strings.Join(c.hist, " ; "), firstLine(slow.pmsg), firstLine(dyn.pmsg)))
+		}
 		c.rep.Inconclusive("C08", "references-disagree-on-panic/"+o.String()[strings.Index(o.String(), ".")+1:][:3])
 		c.dead = true
 		return
@@ -762,6 +765,12 @@ func (c *rdCase) msgStep(h int, hi hinfo) {
 		}
 	case x < 14:
 		fd := c.pickField(d, anyF)
+		if hi.readonly {
+			// Clear on a read-only empty message: dynamicpb treats it as a no-op, protobuf-go's generated
+			// messages panic; the contract leaves it open, so it is not part of the workload
+			c.step(op{code: opHas, h: h, fd: fd}, nil)
+			return
+		}
 		c.step(op{code: opClear, h: h, fd: fd}, nil)
 		if write {
 			c.afterFieldWrite(h, fd)
